@@ -91,6 +91,8 @@ struct Acc {
     info: BTreeMap<String, (u64, String)>,
     guards: BTreeMap<String, String>,
     mnemonic_ok: BTreeMap<String, u64>,
+    scalars: BTreeSet<(String, usize)>,
+    collect: bool,
 }
 
 fn nm(s: &Scalar) -> String {
@@ -180,6 +182,14 @@ fn check_graph(acc: &mut Acc, g: &ControlFlowGraph, addr_bits: usize, ex: &str, 
         for i in b.instructions() {
             if !ops {
                 break;
+            }
+            if acc.collect {
+                let op = i.operation();
+                for sc in op.scalars_read().unwrap_or_default().into_iter().chain(op.scalars_written().unwrap_or_default()) {
+                    if !sc.name().starts_with("temp") {
+                        acc.scalars.insert((sc.name().to_string(), sc.bits()));
+                    }
+                }
             }
             match i.operation() {
                 Operation::Assign { dst, src } => match sort_opt(src) {
@@ -370,6 +380,8 @@ pub fn scan(req: &Value) -> R<Value> {
         info: BTreeMap::new(),
         guards: BTreeMap::new(),
         mnemonic_ok: BTreeMap::new(),
+        scalars: BTreeSet::new(),
+        collect: req["collect_scalars"].as_bool().unwrap_or(false),
     };
     for bytes in &items {
         let ex = hex(bytes);
@@ -457,6 +469,7 @@ pub fn scan(req: &Value) -> R<Value> {
         "info": m2j(&acc.info),
         "guards": acc.guards.iter().map(|(s, ex)| json!([serde_json::from_str::<Value>(s).unwrap(), ex])).collect::<Vec<_>>(),
         "mnemonics": acc.mnemonic_ok,
+        "scalars": acc.scalars.iter().map(|(n, b)| json!([n, b])).collect::<Vec<_>>(),
     }))
 }
 
